@@ -424,7 +424,7 @@ where C: FullDuplexMultiChannel<ItemType = P> + Send + Sync + 'static, P: Payloa
 // ------------------------------------------------------------------------------------------------ registry
 
 /// (N, M) pairs instantiated for the plain payload
-pub const CFGS: [(usize, usize); 8] = [(2, 1), (2, 2), (4, 1), (4, 2), (4, 4), (8, 2), (16, 2), (64, 2)];
+pub const CFGS: [(usize, usize); 9] = [(2, 1), (2, 2), (4, 1), (4, 2), (4, 4), (8, 2), (16, 2), (64, 2), (16, 4)];
 /// (N, M) pairs instantiated for the payload with a destructor
 pub const CFGS_DROP: [(usize, usize); 3] = [(2, 1), (4, 2), (8, 2)];
 /// MAX_STREAMS instantiated for the log channel
@@ -464,7 +464,7 @@ pub fn make(kind: Kind, n: usize, m: usize, droppy: bool) -> Option<Arc<dyn Chan
     if droppy {
         cfg_match!(DTok, kind, n, m, [(2, 1), (4, 2), (8, 2)])
     } else {
-        cfg_match!(Tok, kind, n, m, [(2, 1), (2, 2), (4, 1), (4, 2), (4, 4), (8, 2), (16, 2), (64, 2)])
+        cfg_match!(Tok, kind, n, m, [(2, 1), (2, 2), (4, 1), (4, 2), (4, 4), (8, 2), (16, 2), (64, 2), (16, 4)])
     }
 }
 
